@@ -272,7 +272,59 @@ fn long_cell(spec: &Value, dir: &str) -> Value {
     let size = spec["size"].as_u64().unwrap() as u16;
     let chunk = spec["chunk"].as_u64().unwrap() as usize;
     let mut bad: Option<(String, String)> = None;
-    if spec["regime"] == "stream" {
+    if spec["regime"] == "huge" {
+        // a file beyond 4 GiB (sparse: zeros except for position-coded stretches at the start and around byte 2^32),
+        // streamed through fill/remove: every piece is compared with what the file holds at its offset
+        use std::io::{Seek, SeekFrom, Write};
+        let flen: u64 = (1u64 << 32) + 3 * chunk as u64 + 17;
+        let marked = |off: u64| -> bool { off < 200_000 || (off >= (1u64 << 32) - 100_000 && off < (1u64 << 32) + 150_000) };
+        let byte_at = |off: u64| -> u8 { if marked(off) { ((off.wrapping_mul(2654435761) >> 7) as u8) | 1 } else { 0 } };
+        let path = format!("{dir}/huge_{}", std::process::id());
+        {
+            let mut f = File::create(&path).unwrap();
+            f.set_len(flen).unwrap();
+            for (lo, hi) in [(0u64, 200_000u64), ((1u64 << 32) - 100_000, (1u64 << 32) + 150_000)] {
+                let buf: Vec<u8> = (lo..hi).map(byte_at).collect();
+                f.seek(SeekFrom::Start(lo)).unwrap();
+                f.write_all(&buf).unwrap();
+            }
+        }
+        let mut w = Window::new(size, chunk, File::open(&path).unwrap());
+        let mut off: u64 = 0;
+        let mut ended = false;
+        let mut rounds: u64 = 0;
+        'outer: while !ended && rounds < flen / chunk as u64 + 10 {
+            rounds += 1;
+            c.transitions += 2;
+            if w.fill().is_err() {
+                bad = Some(("fill-fails".into(), format!("fill failed at offset {off} of a readable {flen}-byte file")));
+                break;
+            }
+            for p in w.get_elements().iter() {
+                if ended {
+                    bad = Some(("fill-after-end".into(), format!("a piece of {} bytes was handed out after the first short piece", p.len())));
+                    break 'outer;
+                }
+                let want_len = (flen - off.min(flen)).min(chunk as u64) as usize;
+                let ok = p.len() == want_len && if marked(off) || marked(off + p.len() as u64) { p.iter().enumerate().all(|(i, b)| *b == byte_at(off + i as u64)) } else { p.iter().all(|b| *b == 0) };
+                if !ok {
+                    bad = Some(("fill-content".into(), format!("the piece handed out at file offset {off} ({} bytes) is not file[{off}..{}] of the {flen}-byte file", p.len(), off + want_len as u64)));
+                    break 'outer;
+                }
+                off += p.len() as u64;
+                if p.len() < chunk {
+                    ended = true;
+                }
+            }
+            let n = w.len();
+            let _ = w.remove(n);
+        }
+        if bad.is_none() && (!ended || off != flen) {
+            bad = Some(("fill-content".into(), format!("streaming a {flen}-byte file handed out {off} bytes (short piece seen: {ended})")));
+        }
+        let _ = std::fs::remove_file(&path);
+        c.samples.push(json!({"regime": "huge", "size": size, "chunk": chunk, "file_len": flen, "ops": "repeat [fill, remove(len)] until the short piece"}));
+    } else if spec["regime"] == "stream" {
         let flen = spec["flen"].as_u64().unwrap() as usize;
         let data = content(flen, 43);
         let path = format!("{dir}/stream_{}", std::process::id());
@@ -359,7 +411,7 @@ pub fn cell(spec: &Value) -> Value {
     let mut c = Counters::default();
     let dir = format!("{}/c18", scratch_root());
     let _ = std::fs::create_dir_all(&dir);
-    if spec["regime"] == "stream" || spec["regime"] == "bulk" {
+    if spec["regime"] == "stream" || spec["regime"] == "bulk" || spec["regime"] == "huge" {
         let v = long_cell(spec, &dir);
         let _ = std::fs::remove_dir_all(&dir);
         return v;
@@ -461,6 +513,8 @@ pub fn check(tier: Tier) -> Outcome {
             }
         }
     }
+    // a file beyond 4 GiB (a 32-bit byte offset would wrap)
+    cells.insert(0, json!({"regime": "huge", "size": 4, "chunk": 65464}));
     // more than 65536 chunks handed out from one file (a 16-bit chunk counter would wrap)
     for size in [1u64, 4] {
         cells.push(json!({"regime": "stream", "size": size, "chunk": 3, "flen": 200_000}));
@@ -472,7 +526,7 @@ pub fn check(tier: Tier) -> Outcome {
     let res = run_cells("c18", cells, &crate::pool_opts(tier));
     let mut out = Outcome::new("C18", "model_checking");
     out.absorb(res, n);
-    out.rule = format!("all sequences of exactly {depth} operations (every prefix checked) for (size, chunk, file length) in {{0..3}} x {{1..3}} x {{0..7}}: source regime (read-only file) over {{fill, remove(0..size+1), add(chunk), add(0)}}, sink regime (fresh write-only file) over {{add(chunk/1/0), remove(0..size+1), empty}}, mixed regime (read+write handle, cursor-independent clauses only); plus sizes 65534/65535 with chunk 1 over a reduced alphabet to depth {bdepth}; plus streaming whole files of 8191..70000 bytes through fill/remove for chunk sizes 3..5000, and bulk sinks of 1023..65535 pieces. After every operation the observers len/is_empty/is_full/get_elements (and the sink file) are compared with a VecDeque reference with a read cursor and an end-seen flag. non-trivial = sequences containing a fill or add. states = sequences, transitions = operations applied to the real Window.");
+    out.rule = format!("all sequences of exactly {depth} operations (every prefix checked) for (size, chunk, file length) in {{0..3}} x {{1..3}} x {{0..7}}: source regime (read-only file) over {{fill, remove(0..size+1), add(chunk), add(0)}}, sink regime (fresh write-only file) over {{add(chunk/1/0), remove(0..size+1), empty}}, mixed regime (read+write handle, cursor-independent clauses only); plus sizes 65534/65535 with chunk 1 over a reduced alphabet to depth {bdepth}; plus streaming whole files of 8191..200000 bytes through fill/remove for chunk sizes 1..5000 (more than 65536 chunks) and one sparse file of 4 GiB + 196409 bytes with chunk size 65464, and bulk sinks of 1023..65535 pieces. After every operation the observers len/is_empty/is_full/get_elements (and the sink file) are compared with a VecDeque reference with a read cursor and an end-seen flag. non-trivial = sequences containing a fill or add. states = sequences, transitions = operations applied to the real Window.");
     out.assumptions = vec!["fill's boolean result is not part of the statement and is not compared".into(), "only regular files on tmpfs (no short reads from special files)".into()];
     out
 }
